@@ -807,6 +807,9 @@ func (v *FnVC) analyzeLoops() {
 				if _, ok := ins.(*ssa.DebugRef); ok {
 					continue
 				}
+				if _, ok := ins.(*ssa.Phi); ok {
+					continue // a phi carries the position of the variable's declaration
+				}
 				p := ins.Pos()
 				if !p.IsValid() {
 					continue
@@ -1192,7 +1195,20 @@ func (v *FnVC) loopHeader(b *ssa.BasicBlock, li *LoopInfo, entryPreds []*ssa.Bas
 		t := v.havocVal(phi.Name()+"_"+phi.Comment, phi.Type())
 		v.vals[phi] = t
 		if phi.Comment == "rangeindex" {
+			// Go's lowering of range-over-slice: the index starts at -1, is incremented and compared with the length
+			// taken before the loop; -1 <= index < len is an invariant of that lowering
 			v.assume(v.reach[b], fmt.Sprintf("(>= %s (- 1))", t.S))
+			for _, ins := range b.Instrs {
+				cmp, ok := ins.(*ssa.BinOp)
+				if !ok || cmp.Op != token.LSS {
+					continue
+				}
+				inc, ok := cmp.X.(*ssa.BinOp)
+				if !ok || inc.Op != token.ADD || inc.X != ssa.Value(phi) {
+					continue
+				}
+				v.assume(v.reach[b], fmt.Sprintf("(< %s %s)", t.S, v.val(cmp.Y).S))
+			}
 		}
 	}
 	// 3. assume invariants
